@@ -1067,6 +1067,14 @@ fn c08_k<C: Oracle, const K: usize>(rep: &mut Report, rng: &mut Rng) {
             }
         });
     }
+    // text whose length is not K because of surplus bytes around K valid symbols: whitespace, line ends, NUL, quotes
+    let good = String::from_utf8(text_of::<C>(&rand_rows::<C>(rng, K))).unwrap();
+    for (pre, post) in [("", "\n"), ("", "\r\n"), (" ", ""), ("\t", " "), ("", " "), ("", "\0"), ("\u{feff}", ""), ("\"", "\""), ("", "\u{a0}")] {
+        let padded = format!("{}{}{}", pre, good, post);
+        let r = Kmer::<C, K>::from_str(&padded);
+        let r2: Result<Kmer<C, K>, _> = padded.parse();
+        rep.expect(r.is_err() && r2.is_err(), "C08 text of the wrong length is an error", || format!("{} K={} {:?} accepted as {:?}", C::NAME, K, padded, r.as_ref().map(|k| k.to_string())));
+    }
     // invalid text of the right length
     let mut t = String::from_utf8(text_of::<C>(&rand_rows::<C>(rng, K))).unwrap();
     t.replace_range(K - 1..K, "\u{7f}");
@@ -1178,6 +1186,23 @@ fn adaptors_agree<T: PartialEq + Clone, I: Iterator<Item = T>>(rep: &mut Report,
     }
     let folded = make().fold(0usize, |a, _| a + 1);
     note(folded == n, "fold");
+    // a PARTIALLY consumed iterator: every consumer continues from where next() left off
+    for k in 0..n + 1 {
+        let adv = |mut it: I| { for _ in 0..k { it.next(); } it };
+        let rest = &want[k.min(n)..];
+        note(adv(make()).count() == rest.len(), "count() after k x next()");
+        note(adv(make()).last().as_ref() == rest.last(), "last() after k x next()");
+        let mut viaf: Vec<T> = vec![];
+        adv(make()).for_each(|x| viaf.push(x));
+        note(viaf[..] == *rest, "for_each / fold after k x next()");
+        let viafold: Vec<T> = adv(make()).fold(vec![], |mut a, x| { a.push(x); a });
+        note(viafold[..] == *rest, "fold after k x next()");
+        let (lo, hi) = adv(make()).size_hint();
+        note(lo <= rest.len() && hi.map_or(true, |h| h >= rest.len()), "size_hint() after k x next()");
+        let mut it = adv(make());
+        note(it.nth(1).as_ref() == rest.get(1), "nth(1) after k x next()");
+        if k > 8 && k + 8 < n { continue; }
+    }
     // exhaustion: None stays None
     let mut it = make();
     for _ in 0..n { it.next(); }
@@ -1326,6 +1351,18 @@ fn c13(_tier: &str, seed: u64) -> Report {
             let frame: String = s.windows(3).skip(f).step_by(3).map(|c| STANDARD.to_amino(c).to_char()).collect();
             let wf: String = (f..n - 2).step_by(3).map(|i| ncbi_amino(code(i)) as char).collect();
             rep.expect(frame == wf, "C13 reading frame f by windows(3).skip(f).step_by(3) translates triplets f, f+3, ...", || format!("frame {} of {}", f, s));
+        }
+        // a partially consumed iterator (start codon checked with next(), the rest translated through fold-based consumers)
+        for skipn in [1usize, 2, 5] {
+            let mut it = s.chunks(3);
+            let mut wi = s.windows(3);
+            for _ in 0..skipn { it.next(); wi.next(); }
+            let rest: Seq<Amino> = it.map(|c| STANDARD.to_amino(c)).collect();
+            let mut viaw = String::new();
+            wi.for_each(|c| viaw.push(STANDARD.to_amino(c).to_char()));
+            let wantc: String = (skipn..n / 3).map(|i| ncbi_amino(code(3 * i)) as char).collect();
+            let wantw: String = (skipn..n - 2).map(|i| ncbi_amino(code(i)) as char).collect();
+            rep.expect(rest.to_string() == wantc && viaw == wantw, "C13 translating the rest of a partially consumed windows / chunks iterator gives the remaining triplets", || format!("after {} x next() of {}", skipn, s));
         }
         for k in [0usize, 1, 2, 7, n / 3 - 1, n / 3, n - 3, n - 2] {
             let a = s.windows(3).nth(k).map(|c| STANDARD.to_amino(c).to_char());
